@@ -1011,6 +1011,8 @@ def rejuvenation_smc_rule(ctx, rule="ROLE-rejuvenation_smc"):
     J(R(extend(carry, model, carry.traces.get_retval(), obs_t, proposal))) carried and emitted, where
     R(P) = lax.cond(P.ess() < N // 2, resample, identity, P) and J(P) = n_rejuvenation_moves × rejuvenate(·, kernel) if a kernel is given."""
     ev = mk_ev(ctx, depth=4)
+    # init(target_gf=model, ...) and the positional call are one term
+    ev.canon_kw_functions |= {SMC + n for n in ("init", "extend", "resample", "rejuvenate", "change")}
     dotted = SMC + "rejuvenation_smc"
     s = summarize(ctx, ev, dotted)
     loc = func_loc(ctx, dotted)
